@@ -26,7 +26,7 @@ ASSUMPTIONS = ["trusted base: the library's fresh-construction path (checked by 
                "transient states between the public setters of a compound edit are never read"]
 FLOORS = {'quick': {'fresh-compare': 4000, 'shadow': 600, 'copy-independence': 150, 'container-read': 150},
           'thorough': {'fresh-compare': 40000, 'shadow': 6000, 'copy-independence': 1500}}
-MANDATORY_TAGS = ['sampling:takes-the-value-of-another-direction', 'kept-sizes', 'kept-sizes:given-to-another-object', 'curve', 'surface', 'volume', 'rational', 'container', 'copy', 'op:reverse', 'op:transpose', 'op:flip', 'op:insert',
+MANDATORY_TAGS = ['refused-edit', 'sampling:takes-the-value-of-another-direction', 'kept-sizes', 'kept-sizes:given-to-another-object', 'curve', 'surface', 'volume', 'rational', 'container', 'copy', 'op:reverse', 'op:transpose', 'op:flip', 'op:insert',
                   'op:remove', 'op:refine', 'op:weights', 'op:ctrlpts', 'op:delta', 'op:translate', 'op:degree', 'op:knotvector',
                   'op:container-add', 'op:container-transform', 'op:container-deepcopy', 'read-mutate-read', 'op:container-delta-one-direction']
 TECHNIQUE = ("runtime monitoring: history driver with an online differential oracle (every read of a derived view vs the same read "
@@ -126,6 +126,10 @@ def gen(rng, tier, shard, nshards):
                                        pcls='uniform'))
         yield {'kind': 'history', 'shapes': shapes, 'seed': rng.randrange(1 << 30), 'steps': rng.randint(4, 25),
                'container': rng.random() < 0.5}
+        if i % 3 == 1:
+            pd = rng.choice([1, 2, 2, 3])
+            yield {'kind': 'refused-edit', 'seed': rng.randrange(1 << 30),
+                   'sd': G.rand_shape(rng, pd, dim=3 if pd > 1 else rng.choice([2, 3]), clamped_only=True, maxextra=3, maxdeg=3, pcls='uniform')}
         if i % 3 == 0:
             pd = rng.choice([1, 2, 2, 3])
             yield {'kind': 'kept-sizes', 'seed': rng.randrange(1 << 30),
@@ -179,9 +183,70 @@ def check_kept_sizes(case, ctx):
               'place (the object itself now has %r)' % (which, snap, list(before), list(o.cpsize)), what='copy-independent')
 
 
+def check_refused_edit(case, ctx):
+    """an assignment the library refuses (a control point of the wrong length, a grid that is too small, missing sizes) is not an edit:
+    every view still reports what it reported before"""
+    rng = random.Random(case['seed'])
+    sd = case['sd']
+    pdim = sd['pdim']
+    o = G.build(sd)
+    o.sample_size = {1: 5, 2: 3, 3: 2}[pdim]
+    ctx.tag('refused-edit', {1: 'curve', 2: 'surface', 3: 'volume'}[pdim])
+    ctx.nontriv(True)
+    names = views_for(o)
+    before = dict((nm, copy.deepcopy(view(o, nm))) for nm in names)
+    dg0 = digest(o)
+    how = rng.choice(['ragged-ctrlpts', 'ragged-set_ctrlpts', 'missing-sizes', 'small-ctrlpts2d', 'ragged-ctrlptsw'])
+    refused = False
+    try:
+        if how == 'ragged-ctrlpts':
+            bad = [list(p_) for p_ in o.ctrlpts]
+            bad[rng.randrange(1, len(bad))] = bad[0][:-1]
+            o.ctrlpts = bad
+        elif how == 'ragged-set_ctrlpts':
+            bad = [list(p_) for p_ in (o.ctrlptsw if o.rational else o.ctrlpts)]
+            bad[rng.randrange(1, len(bad))] = bad[0][:-1]
+            o.set_ctrlpts(bad, *sd['sizes']) if pdim > 1 else o.set_ctrlpts(bad)
+        elif how == 'missing-sizes':
+            if pdim == 1:
+                raise Reject()
+            o.set_ctrlpts([list(p_) for p_ in (o.ctrlptsw if o.rational else o.ctrlpts)])
+        elif how == 'small-ctrlpts2d':
+            if pdim != 2:
+                raise Reject()
+            g_ = o.ctrlpts2d
+            o.ctrlpts2d = [list(r_) for r_ in g_[:1]] if G.degrees_of(o)[0] >= 1 and len(g_) > 1 else [r_[:1] for r_ in g_]
+        else:
+            if not o.rational:
+                raise Reject()
+            bad = [list(p_) for p_ in o.ctrlptsw]
+            bad[rng.randrange(1, len(bad))] = bad[0][:-1]
+            o.ctrlptsw = bad
+    except Reject:
+        raise
+    except Exception:
+        refused = True
+    if not refused:
+        raise Reject()          # the library accepted it: then it was an edit, judged by the histories
+    ctx.tag('refused-edit:' + how)
+    bad_views = []
+    for nm in names:
+        try:
+            now = view(o, nm)
+        except Exception as e:
+            bad_views.append('%s raises %s' % (nm, type(e).__name__))
+            continue
+        if not near(now, before[nm], 1e-12):
+            bad_views.append(nm)
+    ctx.check(not bad_views and digest(o) == dg0, 'refused-edit/state-changed', 'after a refused assignment (%s) of a %s these views no longer report '
+              'what they reported before the call: %r' % (how, type(o).__name__, bad_views or ['definition']), what='fresh-equal')
+
+
 def check(case, ctx):
     if case.get('kind') == 'kept-sizes':
         return check_kept_sizes(case, ctx)
+    if case.get('kind') == 'refused-edit':
+        return check_refused_edit(case, ctx)
     from geomdl import operations, multi
     rng = random.Random(case['seed'])
     sds = case['shapes']
